@@ -350,6 +350,13 @@ def step (s : DState) (line : String) : DState × String :=
     match c.toNat?, pStr n, s.app with
     | some c, some n, some a => plain { s with app := some { a with cmds := a.cmds ++ [(c, n)] } } "ok"
     | _, _, _ => plain s "bad-op"
+  | ["avp", n, c, v, must, t, _items] =>
+    -- the number of <item> children under the data element: documentation, no effect on the definition
+    match pStr n, pU32 c, pVendor v, (if must = "~" then some none else (pStr must).map some), pStr t, s.app with
+    | some n, some c, some v, some must, some t, some a =>
+      if _items.toNat?.isNone then plain s "bad-op" else
+      plain { s with app := some { a with avps := a.avps ++ [⟨n, c, v, must, t⟩] } } "ok"
+    | _, _, _, _, _, _ => plain s "bad-op"
   | ["avp", n, c, v, must, t] =>
     match pStr n, pU32 c, pVendor v, (if must = "~" then some none else (pStr must).map some), pStr t, s.app with
     | some n, some c, some v, some must, some t, some a =>
